@@ -30,6 +30,8 @@ fn main() -> ExitCode {
         Some("run") => driver::cmd_run(&args[1..]),
         Some("replay") => driver::cmd_replay(&args[1..]),
         Some("oracle") => driver::cmd_oracle(&args[1..]),
+        Some("segment") => driver::cmd_segment(&args[1..]),
+        Some("history") => driver::cmd_history(&args[1..]),
         Some("threads") => threads::cmd_threads(&args[1..]),
         _ => {
             eprintln!("usage: narsim run|replay|oracle|threads ...");
